@@ -4,10 +4,14 @@ package main
 
 import (
 	"bytes"
+	"context"
 
 	"github.com/pkg/errors"
 	"github.com/tokenized/pkg/bitcoin"
 	"github.com/tokenized/pkg/wire"
+	"github.com/tokenized/spynode/internal/handlers"
+	"github.com/tokenized/spynode/internal/spynode"
+	"github.com/tokenized/spynode/internal/state"
 	"github.com/tokenized/spynode/pkg/client"
 )
 
@@ -42,6 +46,13 @@ import (
 //	                                          header hid (on prev) commits to the textbook root of `committed`;
 //	                                          the body delivered with it is the listed transactions;
 //	                                          lie=1 wraps the block in a type whose IsMerkleRootValid says true
+//	["fault", [t...]]                         from now on the output fetcher fails when asked for the outputs spent by
+//	                                          one of these transactions (replaces the previous set; [] = no fault):
+//	                                          ProcessBlock then aborts in its second pass, after the first pass has
+//	                                          recorded the block's new relevant txids in the per-height tx id file
+//	["restart", graceful, insync]             the Node is dropped and a new one is built and loaded on the SAME storage;
+//	                                          graceful=1 saves headers and the unconfirmed list first (shutdown),
+//	                                          graceful=0 is a hard crash; insync = state of the new node
 //	["refeed", [body]]                        probe only (never generated): Node.provideBlock, the refeed path
 func init() { register("merkle", runMerkle) }
 
@@ -141,11 +152,54 @@ func (f *flowNode) encMerkleEvents(evs []recEvent, st symTable) []int64 {
 	return append([]int64{n}, o...)
 }
 
+// faultFetcher is the scripted output fetcher with fault injection: it fails when one of the requested
+// outpoints is the private outpoint of a transaction in `fail`.
+type faultFetcher struct {
+	tu   *TxUniverse
+	fail map[int64]bool
+}
+
+func (f *faultFetcher) GetOutputs(ctx context.Context, ops []wire.OutPoint) ([]bitcoin.UTXO, error) {
+	for _, op := range ops {
+		if id := f.tu.OutPointID(op); id >= 0 && f.fail[id/10-100000] {
+			return nil, errors.New("injected output fetch fault")
+		}
+	}
+	return (&scriptedFetcher{f.tu}).GetOutputs(ctx, ops)
+}
+
+func (f *faultFetcher) GetTx(ctx context.Context, txid bitcoin.Hash32) (*wire.MsgTx, error) {
+	return nil, errors.New("not available")
+}
+
+// bootMerkle builds a new Node on f.store and loads it (what flowNode.boot does, with the faulting fetcher).
+func (f *flowNode) bootMerkle(fetcher *faultFetcher) {
+	cfg := testConfig()
+	cfg.SafeTxDelay = f.cfg.delay
+	cfg.RequestMempool = false
+	cfg.StartHash = f.bu.HashOf(0)
+	f.node = spynode.NewNode(cfg, f.store, fetcher, fetcher)
+	f.rec = &recorder{}
+	f.node.RegisterHandler(f.rec)
+	f.node.SubscribePushDatas(f.ctx, [][]byte{SubscribedData})
+	if err := f.node.VerifLoad(f.ctx); err != nil {
+		panic(harnessErr("load: " + err.Error()))
+	}
+	f.node.VerifTxChannel().Open(1000)
+	f.node.VerifOutgoing().Open(1000)
+	f.ustate = state.NewUntrustedState()
+	f.utracker = state.NewTxTracker()
+	f.untrust = handlers.NewUntrustedMessageHandlers(f.ctx, f.node.VerifState(), f.ustate, f.node.VerifPeers(),
+		f.node.VerifBlocks(), f.utracker, f.node.VerifMemPool(), f.node.VerifTxChannel(), f.node, "untrusted:8333")
+}
+
 func runMerkle(c *Case) ([]Obs, any) {
 	bu := NewUniverse()
 	tu := NewTxUniverse()
 	store := NewVStore(true)
-	f := newFlowNode(store, bu, tu, 2000, 0)
+	fetcher := &faultFetcher{tu: tu, fail: map[int64]bool{}}
+	f := &flowNode{ctx: context.Background(), store: store, bu: bu, tu: tu, cfg: testCfg{2000}}
+	f.bootMerkle(fetcher)
 	ctx := f.ctx
 	if cfgInt(c, "insync", 0) != 0 {
 		f.node.VerifState().SetInSync()
@@ -222,6 +276,25 @@ func runMerkle(c *Case) ([]Obs, any) {
 				}
 				if err := f.node.ProcessBlock(ctx, blk); err != nil {
 					return finish(ERR)
+				}
+				return finish(OK)
+			case "fault":
+				fetcher.fail = map[int64]bool{}
+				for _, t := range op.Ints(0) {
+					merkleTx(tu, rel, t) // its outpoint id must be known before the fetcher is asked
+					fetcher.fail[t] = true
+				}
+				return finish(OK)
+			case "restart":
+				if op.Int(0) != 0 {
+					f.node.VerifBlocks().Save(ctx)
+					if err := f.node.VerifTxs().Save(ctx); err != nil {
+						return finish(ERR)
+					}
+				}
+				f.bootMerkle(fetcher)
+				if op.Int(1) != 0 {
+					f.node.VerifState().SetInSync()
 				}
 				return finish(OK)
 			case "refeed": // [body]: the refeed path provideBlock on the tip's header with this body (probe, not generated)
